@@ -81,11 +81,12 @@ Example C19_chunks_example : chunks BUFFER_SIZE 8 100000 =
 Proof. exact chunks_example. Qed.
 Print Assumptions C19_chunks_example.
 
-(* _reduce_memmap_backed / _strided_from_memmap, for every view of a memmap:
+(* _reduce_memmap_backed / _strided_from_memmap, for every view of a memmap.  [reduce_memmap] runs the decision and
+   the arithmetic TRANSLATED from the source ([reduce_args]) on numpy's byte_bounds:
    (a) non-contiguous, no negative stride: every element is rebuilt at its own file offset, and when the
        strides are multiples of the item size the rebuilt enclosing buffer contains every element;
-   (b) contiguous (C or F, whatever the order of the backing memmap): every element is rebuilt at its own
-       file offset and the rebuilt buffer is exactly the view's extent.
+   (b) contiguous in numpy's relaxed sense (C or F, whatever the order of the backing memmap): every element is
+       rebuilt at its own file offset -- same bytes, same order -- and the rebuilt buffer is the view's extent.
    The cases outside these hypotheses are the refuted statements below. *)
 Theorem C19_memmap_view : forall a m r idx,
   reduce_memmap a m = Ok r -> in_boundsZ (v_shape a) idx ->
@@ -95,8 +96,8 @@ Theorem C19_memmap_view : forall a m r idx,
         fst (recon_range a r) <= recon_elem_off a r idx /\
         recon_elem_off a r idx + v_isz a <= snd (recon_range a r))) /\
   (0 <= v_isz a ->
-   (v_c a = true /\ v_strides a = c_strides (v_shape a) (v_isz a)) \/
-   (v_c a = false /\ v_f a = true /\ v_strides a = f_strides (v_shape a) (v_isz a)
+   (v_c a = true /\ is_c_contig (v_shape a) (v_strides a) (v_isz a) = true) \/
+   (v_c a = false /\ v_f a = true /\ is_f_contig_from (v_isz a) (v_shape a) (v_strides a) = true
     /\ Forall (fun st => 0 <= st) (v_strides a)) ->
    recon_elem_off a r idx = orig_elem_off a m idx /\
    recon_range a r = (orig_elem_off a m (map (fun _ => 0) idx),
@@ -108,14 +109,57 @@ Proof.
 Qed.
 Print Assumptions C19_memmap_view.
 
+(* the translated source and the hand model of _reduce_memmap_backed agree on every view; the canonical C / F
+   strides are contiguous in numpy's relaxed sense *)
+Theorem C19_reduce_translation_matches_model :
+  (forall a m, reduce_memmap a m = reduce_memmap_hand a m) /\
+  (forall shape isz, is_c_contig shape (c_strides shape isz) isz = true) /\
+  (forall shape isz, is_f_contig_from isz shape (f_strides shape isz) = true).
+Proof.
+  exact (conj reduce_memmap_eq_hand (conj c_strides_contig (fun shape isz => f_strides_contig shape isz))).
+Qed.
+Print Assumptions C19_reduce_translation_matches_model.
+
 (* the transpose of a C-ordered memmap (finding F28, fixed in /repo): the order of the view is sent *)
 Example C19_memmap_transposed_example :
   reduce_memmap transposed_view c_backing = Ok (0, OrdF, None, None) /\
-  v_strides transposed_view = f_strides (v_shape transposed_view) (v_isz transposed_view) /\
+  is_f_contig_from (v_isz transposed_view) (v_shape transposed_view) (v_strides transposed_view) = true /\
   recon_elem_off transposed_view (0, OrdF, None, None) [0; 1] = 24 /\
   orig_elem_off transposed_view c_backing [0; 1] = 24.
 Proof. exact transposed_example. Qed.
 Print Assumptions C19_memmap_transposed_example.
+
+(* F28 as a refutation of the OLD rule (order of the backing memmap for a contiguous view), kept so that the
+   positive statement (b) is seen to exclude it: under [reduce_memmap_old] m.T is rebuilt at other bytes *)
+Theorem C19_memmap_old_order_rule_refuted : exists r,
+  reduce_memmap_old transposed_view c_backing = Ok r /\ in_boundsZ (v_shape transposed_view) [0; 1] /\
+  v_c transposed_view = np_c_contig (v_shape transposed_view) (v_strides transposed_view) (v_isz transposed_view) /\
+  v_f transposed_view = np_f_contig (v_shape transposed_view) (v_strides transposed_view) (v_isz transposed_view) /\
+  recon_elem_off transposed_view r [0; 1] <> orig_elem_off transposed_view c_backing [0; 1].
+Proof. exact old_order_rule_refuted. Qed.
+Print Assumptions C19_memmap_old_order_rule_refuted.
+
+(* ArrayMemmapForwardReducer.__call__ (threshold test translated): an array without a backing memmap is dumped
+   to a temporary memmap iff it has no object dtype, a threshold is set and nbytes is STRICTLY above it; an array
+   backed by a memmap is always re-mapped *)
+Theorem C19_auto_memmap_threshold : forall has_backing hasobject max_nbytes nbytes,
+  exists rt, forward_route has_backing hasobject max_nbytes nbytes = Ok rt /\
+  (rt = RReduceBacked <-> has_backing = true) /\
+  (rt = RDumpTemp <-> has_backing = false /\ hasobject = false /\ exists t, max_nbytes = Some t /\ t < nbytes).
+Proof. exact forward_route_spec. Qed.
+Print Assumptions C19_auto_memmap_threshold.
+
+(* array types and payload kinds: ndarray and memmap come back as ndarray (memmap under a memory-mapped load);
+   with __array_prepare__ a subclass would be rebuilt; other subclasses are not intercepted; object arrays are
+   pickled, never memory-mapped *)
+Theorem C19_array_types : forall via_mmap,
+  loaded_type TNdarray numpy_has_array_prepare via_mmap = (if via_mmap then TMemmap else TNdarray) /\
+  loaded_type TMemmap numpy_has_array_prepare via_mmap = (if via_mmap then TMemmap else TNdarray) /\
+  (forall t, loaded_type t true via_mmap = match t with TMatrix | TSubclass => t | _ => if via_mmap then TMemmap else TNdarray end) /\
+  save_intercepts TSubclass = false /\ payload_kind true = PPickle2 /\ payload_kind false = PRaw /\
+  (forall u, reads_via_mmap u false = false).
+Proof. exact loaded_type_spec. Qed.
+Print Assumptions C19_array_types.
 
 Example C19_memmap_view_example :
   v_c strided_view = false /\ v_f strided_view = false /\ 1 <= v_isz strided_view /\
@@ -126,7 +170,7 @@ Example C19_memmap_view_example :
 Proof. exact strided_example. Qed.
 Print Assumptions C19_memmap_view_example.
 
-(* ---- statements that are FALSE of the unchanged code (known findings F19, F20, F21) ----
+(* ---- statements that are FALSE of the unchanged code (known findings F19, F20, F21, F29) ----
 
    Full statement wanted: for every dtype (item size >= 0) dump/load succeed; for EVERY view of a memmap
    the rebuilt array addresses the same file bytes inside its own buffer. *)
@@ -155,3 +199,9 @@ Theorem C19_memmap_buffer_len_floor_refuted : exists r,
   snd (recon_range field_view r) < recon_elem_off field_view r [9] + v_isz field_view.
 Proof. exact buffer_len_floor_refuted. Qed.
 Print Assumptions C19_memmap_buffer_len_floor_refuted.
+
+(* F29  c19:matrix-subclass-lost-numpy2 -- the numpy in use has no ndarray.__array_prepare__ (regenerated
+   constant), so NumpyArrayWrapper.read never rebuilds the subclass: a matrix comes back as a plain ndarray *)
+Theorem C19_matrix_subclass_refuted : loaded_type TMatrix numpy_has_array_prepare false <> TMatrix.
+Proof. exact matrix_subclass_refuted. Qed.
+Print Assumptions C19_matrix_subclass_refuted.
